@@ -30,7 +30,8 @@ import vcommon as V, circ, designgen as G
 
 CID = "C10"
 WORK = V.BUILD / "work" / CID
-HANDS = ["h_default0", "h_default1", "h_default2", "h_areafam0", "h_areafam1", "h_areafam2", "h_areafam3", "h_clockfam0", "h_clockfam1", "h_clockfam2", "h_clockfam3", "h_mem_rmw", "h_mem_condwrite", "h_mem_multi", "h_mem_wrorder", "h_retime_enable", "h_retime_intersect", "h_retime_hint", "h_negreg",
+HANDS = ["h_dev_intel_m9k_m20k", "h_dev_intel_m20k_m9k_mlab", "h_dev_intel_fifo", "h_dev_intel_builtin", "h_dev_intel_agilex",
+         "h_dev_xilinx_lutrams", "h_dev_xilinx_builtin", "h_dev_xilinx_fifo", "h_default0", "h_default1", "h_default2", "h_areafam0", "h_areafam1", "h_areafam2", "h_areafam3", "h_clockfam0", "h_clockfam1", "h_clockfam2", "h_clockfam3", "h_mem_rmw", "h_mem_condwrite", "h_mem_multi", "h_mem_wrorder", "h_retime_enable", "h_retime_intersect", "h_retime_hint", "h_negreg",
          "h_hier_partition", "h_hier_entity", "h_small_hier", "h_multiclock", "h_fifo", "h_dcfifo", "h_wide_logic"]
 OMODES = ["single", "entity", "partition"]
 TOOLS = ["default", "ghdl", "vivado", "quartus"]
@@ -401,6 +402,8 @@ def gen_programs(seed, n):
         progs.append(gen_areafam(seed, i))
     for i in range(max(8, n // 4)):
         progs.append(gen_defaultfam(seed, i))
+    for i in range(max(9, n // 4)):
+        progs.append(gen_devicefam(seed, i))
     return progs
 
 
@@ -567,6 +570,44 @@ def gen_defaultfam(seed, i):
     return (did, L, ["defaultfam"])
 
 
+INTEL_PRIMS = ["MLAB", "M9K", "M20K", "M20KStratix10Agilex"]
+XILINX_PRIMS = ["Lutram7Series", "LutramUltrascale", "BlockramUltrascale"]
+DEVICE_STRINGS = ["intel:device=10CX220YF780I5G", "intel:family=Arria_10", "intel:family=Agilex", "intel:family=MAX_10",
+                  "xilinx:device=XCKU035-1FBVA900C", "xilinx:family=Zynq7", "xilinx:family=Virtex_Ultrascale"]
+
+
+def gen_devicefam(seed, i):
+    """Design family exported for a TARGET DEVICE: memories of random geometry / type / read latency that technology
+    mapping has to place into the device's embedded memory primitives.  Two out of three devices are assembled through
+    custom_composition from a random subset (>= 2) of the vendor's primitives in random order, so that primitives of
+    EQUAL priority (same size category: M9K / M20K / M20KStratix10Agilex, Lutram7Series / LutramUltrascale) compete."""
+    import random
+    r = random.Random(seed * 1300021 + i)
+    did = f"v{i}"
+    if i % 3 == 2:
+        dev = r.choice(DEVICE_STRINGS)
+    else:
+        prims = INTEL_PRIMS if r.random() < 0.6 else XILINX_PRIMS
+        k = r.randint(2, len(prims))
+        sel = r.sample(prims, k)
+        dev = ("intel" if prims is INTEL_PRIMS else "xilinx") + ":custom=" + "+".join(sel)
+    tool = "quartus" if dev.startswith("intel") else "vivado"
+    L = [f"design {did}", f"omode {OMODES[i % 2]}", f"tool {r.choice([tool, tool, 'default'])}", f"device {dev}"]
+    for j in range(r.choice([1, 1, 2, 3])):
+        depth = r.choice([16, 32, 64, 256, 512, 512, 1024, 2048])
+        width = r.choice([1, 4, 8, 8, 9, 16])
+        typ = r.choice(["medium", "medium", "small", "large", "dontcare"]) if depth > 64 else r.choice(["small", "dontcare", "medium"])
+        lat = r.choice([1, 1, 1, 2]) if typ != "small" else r.choice([0, 1])
+        aw = max(1, (depth - 1).bit_length())
+        L += [f"in wa{j} {aw}", f"in wd{j} {width}", f"inb we{j}", f"in ra{j} {aw}",
+              f"mem M{j} {depth} {width} type={typ} lat={lat}" + (" zero" if r.random() < 0.3 else ""),
+              f"memread r{j}_0 M{j} ra{j}", f"memwrite M{j} wa{j} wd{j} we{j}"]
+        for q in range(lat):
+            L.append(f"regb r{j}_{q + 1} r{j}_{q}")
+        L.append(f"out o{j} r{j}_{lat}")
+    return (did, L, ["devicefam"])
+
+
 def sha(path):
     h = hashlib.sha256()
     with open(path, "rb") as f:
@@ -653,6 +694,8 @@ def addr_info(d):
                 info["clocks"] = int(p[1]); info["clock_inversions"] = int(p[3])
             elif p[0] == "clockorder":
                 info["clockorder"] = p[1:]
+            elif p[0] == "embmems":
+                info["embmems"] = int(p[1]); info["embrank"] = p[3:]
             elif p[0] == "defaults":
                 info["defaults"] = int(p[1]); info["defaults_chained"] = int(p[3])
             elif p[0] == "vhdlentities":
@@ -971,6 +1014,15 @@ def main():
         if a2.get("vhdlentities", 0) >= 2 and a3.get("vhdlentities", 0) >= 2:
             ent_designs += 1
             ent_mirrored += a2["entityrank"] != a3["entityrank"]
+    # primitive descriptions of target devices (allocated when the device is configured)
+    dev_designs = dev_varied = 0
+    for d in designs:
+        infos_d = [addr_info(out / b / d) for b in [ref] + builds]
+        if infos_d[0].get("embmems", 0) >= 2:
+            dev_designs += 1
+            dev_varied += len({tuple(x.get("embrank", [])) for x in infos_d}) >= 2
+    if dev_designs and dev_varied < 0.9 * dev_designs and not replay:
+        V.infra_error(f"heap perturbation does not reorder the target device's primitive descriptions: only {dev_varied}/{dev_designs} designs saw two address orders")
     if ((blk_designs and blk_mirrored < 0.9 * blk_designs) or (ent_designs and ent_mirrored < 0.9 * ent_designs)) and not replay:
         V.infra_error(f"heap perturbation does not reorder the exporter's objects: descending/ascending pool builds differ in "
                       f"{blk_mirrored}/{blk_designs} designs (vhdl::Block) and {ent_mirrored}/{ent_designs} designs (vhdl::Entity)")
@@ -1001,6 +1053,7 @@ def main():
     rep.cov["programs"] = len(designs)
     rep.cov["designs_generated"] = len([1 for d in designs if d.startswith("g")])
     rep.cov["designs_generated_clock_family"] = len([1 for d in designs if d.startswith("k")])
+    rep.cov["designs_generated_target_device_family"] = len([1 for d in designs if re.match(r"v\d+$", d)])
     rep.cov["designs_generated_default_value_family"] = len([1 for d in designs if re.match(r"d\d+$", d)])
     rep.cov["designs_with_two_or_more_defaults_on_one_signal"] = sum(1 for d in designs if addr_info(out / ref / d).get("defaults_chained", 0) >= 2)
     rep.cov["designs_generated_area_block_family"] = len([1 for d in designs if re.match(r"a\d+$", d)])
@@ -1023,6 +1076,8 @@ def main():
     rep.cov["designs_with_3_or_more_clocks"] = clk_designs
     rep.cov["of_those_clock_address_order_differs_between_descending_and_ascending_build"] = clk_mirrored
     rep.cov["mean_distinct_clock_address_orders_per_such_design"] = round(clk_orders / clk_designs, 1) if clk_designs else 0
+    rep.cov["designs_with_target_device_of_2_or_more_embedded_memory_primitives"] = dev_designs
+    rep.cov["of_those_primitive_descriptions_seen_in_2_or_more_address_orders"] = dev_varied
     rep.cov["designs_with_2_or_more_vhdl_blocks_in_one_entity"] = blk_designs
     rep.cov["of_those_block_address_order_differs_between_descending_and_ascending_build"] = blk_mirrored
     rep.cov["designs_with_2_or_more_vhdl_entities"] = ent_designs
